@@ -661,6 +661,33 @@ Proof.
   destruct F as (?&?&?&?&?&?&?&?&?). repeat split; lia.
 Qed.
 
+(* action-trigger config: only capabilities the input offers become active; an input without the capability stays inactive;
+   inputs of other channels keep their value *)
+Theorem C03_action_triggers_within_capability_thm : forall cap req,
+  Z.land (at_active cap req) cap = at_active cap req /\ (cap = 0 -> at_active cap req = 0).
+Proof.
+  intros cap req. unfold at_active. split.
+  - rewrite (Z.land_comm cap req), <- Z.land_assoc, Z.land_diag. reflexivity.
+  - intros ->. apply Z.land_0_l.
+Qed.
+
+Lemma nth_map_slots (F : Z -> Z) n i : 0 <= i < n -> nth (Z.to_nat i) (map F (slots n)) 0 = F i.
+Proof.
+  intros H. unfold slots. rewrite map_map.
+  rewrite (nth_indep _ 0 ((fun x => F (Z.of_nat x)) 0%nat)) by (rewrite map_length, seq_length; lia).
+  rewrite (map_nth (fun x => F (Z.of_nat x))). rewrite seq_nth by lia. cbn [Nat.add]. rewrite Z2Nat.id by lia. reflexivity.
+Qed.
+
+Theorem C03_action_triggers_frame_thm : forall b act id p scratch i,
+  len act = INPUT_MAX -> 0 <= i < INPUT_MAX ->
+  i_channel (input_at b i) <> nthz p CC_CHANNEL ->
+  nth (Z.to_nat i) (active_after b act id p scratch) 0 = nth (Z.to_nat i) act 0.
+Proof.
+  intros b act id p scratch i Hl Hi Hc. unfold active_after. destruct (at_config b id p scratch); [|reflexivity].
+  rewrite nth_map_slots by assumption.
+  destruct (i_channel (input_at b i) =? nthz p CC_CHANNEL) eqn:E; [apply Z.eqb_eq in E; contradiction|reflexivity].
+Qed.
+
 (* ---- decidable form of wf_board (used for the examples and witnesses) ---- *)
 Definition relay_okb (r : relay) : bool := (0 <=? r_gpio r) && (r_gpio r <? GPIO_PINS - 1) && (0 <=? r_channel r) && (r_channel r <? 255).
 Definition input_okb (i : input) : bool := (0 <=? i_channel i) && (i_channel i <=? 255) && (0 <=? i_relay_gpio i) && (i_relay_gpio i <=? 255).
